@@ -377,8 +377,12 @@ def compare(case, out):
 
 def oracle(case):
     """the abstract description the text was printed from is what must be read back"""
-    if case.get("op") == "bdldata" and case.get("description") and "ok" in case["impl"]:
-        return typed_vs_description(case)
+    if case.get("op") == "bdldata" and case.get("description"):
+        if "ok" in case["impl"]:
+            return typed_vs_description(case)
+        # the text was printed from a well-formed description, in the syntax HULC writes
+        return [{"what": f"{case['label']}: a project printed from a well-formed description is not read: {str(case['impl'])[:160]}",
+                 "key": {"class": "printed-project-rejected"}}]
     exp = case.get("expected")
     if exp is None:
         return []
